@@ -88,6 +88,9 @@ class MafReader:
         # get the column names
         if self.__next_line is not None:
             column_names = self.__next_line.split(MafRecord.ColumnSeparator)
+            # the physical line of the column names (the counter only advances
+            # when another line follows, so it cannot be derived from it later)
+            column_names_line_number = self.__line_number
             self.__next_line__()
         else:
             column_names = None
@@ -105,7 +108,7 @@ class MafReader:
                         MafValidationErrorType.SCHEME_MISMATCHING_NUMBER_OF_COLUMN_NAMES,
                         "Found '%d' columns but expected '%d'"
                         % (len(column_names), len(scheme_column_names)),
-                        line_number=self.__line_number - 1,
+                        line_number=column_names_line_number,
                     )
                 )
             else:
@@ -119,7 +122,7 @@ class MafReader:
                                 "Found column with name '%s' but expected '%s' for "
                                 "the '%d'th column"
                                 % (column_name, scheme_column_name, i + 1),
-                                line_number=self.__line_number - 1,
+                                line_number=column_names_line_number,
                             )
                         )
         else:
